@@ -30,12 +30,12 @@ MANIFEST = dict(
              "vectors and the csg_map executable/file formats are not covered.")
 
 
-def _xml(md):
+def _xml(md, prefix=""):
     beads, maps = [], []
     for k, bd in enumerate(md["beads"]):
         beads.append("<cg_bead><name>B%d</name><type>T%d</type><symmetry>%d</symmetry><mapping>m%d</mapping>"
                      "<beads>%s</beads></cg_bead>" % (k + 1, k + 1, bd["sym"], k + 1,
-                                                      " ".join("A%d" % i for i in bd["par"])))
+                                                      " ".join("%sA%d" % (prefix, i) for i in bd["par"])))
         d = "<d>%s</d>" % " ".join(str(x) for x in bd["d"]) if bd["d"] else ""
         maps.append("<map><name>m%d</name><weights>%s</weights>%s</map>" % (k + 1, " ".join(str(x) for x in bd["w"]), d))
     return ("<cg_molecule><name>CG</name><ident>M</ident><topology><cg_beads>\n%s\n</cg_beads></topology>"
@@ -91,6 +91,7 @@ class _Checker:
         self.ctx = ctx
         self.exe = exe
         self.xml = {}
+        self.exec_pool = []
         self.stats = {"histories": 0, "frames": 0, "err_yes": 0, "err_either": 0, "err_no": 0, "open": 0,
                       "boxchange": 0, "ops": {}}
 
@@ -214,6 +215,108 @@ class _Checker:
                 if not _vclose(b["f"], f):
                     ctx.violation("force:%s:%s" % (sym, "d" if bd["d"] else "no-d"),
                                   "%s: force %s expected %s" % (tag, b["f"], f), rep)
+
+    # ---- executable level: csg_map on files written from TLC histories -----------------------------------
+    def collect_exec(self, hists, limit):
+        """remember histories that a .gro trajectory can express (positions everywhere, velocities for all
+        atoms or none, no rejected or half-height frame)"""
+        for r in hists:
+            if len(self.exec_pool) >= limit:
+                return
+            if r["initerr"] or not r["fl"]["hp"] or r["fl"]["hv"] not in ("all", "none"):
+                continue
+            if any(st["err"] != "no" for st in r["h"]) or not r["h"]:
+                continue
+            if len(self.exec_pool) % 2 == 0 and not any(st["op"] == "shift" for st in r["h"]):
+                continue                       # every other one must contain an image shift
+            self.exec_pool.append(r)
+
+    def exec_csg_map(self, bindir):
+        import shutil
+        import subprocess
+        ctx = self.ctx
+        exe = os.path.join(bindir, "csg_map")
+        for idx, r in enumerate(self.exec_pool):
+            md, fl = r["md"], r["fl"]
+            d = vlib.scratch_file("c01-exec-%d" % idx)
+            os.makedirs(d, exist_ok=True)
+            n = md["n"]
+            withvel = fl["hv"] == "all"
+
+            def gro_frame(st):
+                lines = ["frame", "%5d" % (2 * n)]
+                k = 0
+                for mol, pos in enumerate((st["pos"], st["pos2"])):
+                    for i, p in enumerate(pos):
+                        k += 1
+                        ln = "%5d%-5s%5s%5d%8.3f%8.3f%8.3f" % (mol + 1, "R", "A%d" % (i + 1), k,
+                                                               p[0] / U, p[1] / U, p[2] / U)
+                        if withvel:
+                            ln += "%8.4f%8.4f%8.4f" % tuple(float(x) for x in st["vel"][i])
+                        lines.append(ln)
+                a, b, c = st["box"]
+                lines.append(" ".join("%.5f" % (v / U) for v in (a[0], b[1], c[2], a[1], a[2], b[0], b[2], c[0], c[1])))
+                return "\n".join(lines) + "\n"
+
+            with open(os.path.join(d, "conf.gro"), "w") as f:
+                f.write(gro_frame(r["h"][0]))
+            with open(os.path.join(d, "traj.gro"), "w") as f:
+                for st in r["h"]:
+                    f.write(gro_frame(st))
+            with open(os.path.join(d, "top.xml"), "w") as f:
+                f.write('<topology base="conf.gro"><molecules><define name="M" first="1" nbeads="%d" nmols="2"/>'
+                        '</molecules></topology>\n' % n)
+            with open(os.path.join(d, "map.xml"), "w") as f:
+                f.write(_xml(md, "1:R:"))
+            # csg_map writes mapped velocities only when asked to (--vel)
+            p = subprocess.run([exe, "--top", "top.xml", "--trj", "traj.gro", "--cg", "map.xml", "--out", "out.gro"]
+                               + (["--vel"] if withvel else []),
+                               cwd=d, stdout=subprocess.PIPE, stderr=subprocess.STDOUT, text=True, timeout=120)
+            rep = {"history": r, "exec": True}
+            ctx.traces += 1
+            outp = os.path.join(d, "out.gro")
+            if p.returncode != 0 or not os.path.exists(outp):
+                ctx.violation("csg_map:failed", "csg_map exit %s: %s" % (p.returncode, p.stdout[-600:]), rep)
+                continue
+            toks = open(outp).read().split("\n")
+            pos = 0
+            nb = len(md["beads"])
+            for j, st in enumerate(r["h"]):
+                try:
+                    nat = int(toks[pos + 1])
+                    atoms = toks[pos + 2:pos + 2 + nat]
+                    boxl = [float(x) for x in toks[pos + 2 + nat].split()]
+                    pos += 3 + nat
+                except (ValueError, IndexError):
+                    ctx.violation("csg_map:frame-missing", "output has no frame %d: %s" % (j, toks[pos:pos + 3]), rep)
+                    break
+                a, b, c = st["box"]
+                expbox = [v / U for v in (a[0], b[1], c[2], a[1], a[2], b[0], b[2], c[0], c[1])]
+                if len(boxl) == 3:
+                    boxl += [0.0] * 6
+                if nat != 2 * nb:
+                    ctx.violation("csg_map:bead-count", "frame %d: %d beads, expected %d" % (j, nat, 2 * nb), rep)
+                    break
+                if any(abs(x - y) > 1.1e-5 for x, y in zip(boxl, expbox)):
+                    ctx.violation("csg_map:box", "frame %d: box line %s expected %s" % (j, boxl, expbox), rep)
+                exp = list(st["out"]) + list(st["out2"])
+                for k, (ln, e) in enumerate(zip(atoms, exp)):
+                    xyz = [float(ln[20 + 8 * c:28 + 8 * c]) for c in range(3)]
+                    cands = [[x / (e["W"] * U) for x in cnd] for cnd in e["cands"]]
+                    if not any(all(abs(x - y) <= 6e-4 for x, y in zip(xyz, cnd)) for cnd in cands):
+                        ctx.violation("csg_map:pos", "frame %d (%s) CG bead %d: %s expected %s (box %s, atoms %s / %s)"
+                                      % (j, st["op"], k, xyz, cands, st["box"], st["pos"], st["pos2"]), rep)
+                    if withvel:
+                        if len(ln) < 68:
+                            ctx.violation("csg_map:vel-missing", "frame %d CG bead %d has no velocity" % (j, k), rep)
+                        else:
+                            v = [float(ln[44 + 8 * c:52 + 8 * c]) for c in range(3)]
+                            ev = [x / e["W"] for x in e["velnum"]]
+                            if any(abs(x - y) > 6e-5 for x, y in zip(v, ev)):
+                                ctx.violation("csg_map:vel", "frame %d CG bead %d: velocity %s expected %s"
+                                              % (j, k, v, ev), rep)
+            shutil.rmtree(d, ignore_errors=True)
+        self.stats["csg_map_runs"] = len(self.exec_pool)
 
     # ---- opposite direction: random frames of the real code, judged by TLC ------------------------------
     def random_frames(self, nscen, nframes):
@@ -353,7 +456,7 @@ class _Checker:
 
 
 def run(ctx):
-    bindir = vlib.ensure_build(["drv_cgmap"])
+    bindir = vlib.ensure_build(["drv_cgmap", "csg_map"])
     chk = _Checker(ctx, bindir + "/drv_cgmap")
     quick = ctx.quick
     ctx.rule = ("one trace = one call history (2 molecules, map created once, then Depth frames each followed by "
@@ -397,6 +500,7 @@ def run(ctx):
                 raise vlib.InfraError("no histories exported")
             res.out = ""
             chk.histories(hists)
+            chk.collect_exec(hists, (12 if quick else 40) * (1 if sel is None else sel) // (1 if sel is None else 8) + 1)
             for pick in list(picks):
                 for r in hists:
                     if pick(r):
@@ -414,13 +518,17 @@ def run(ctx):
             sims = [r for r in res.records if not r["initerr"]]
             res.out = ""
             chk.histories(sims)
+            chk.collect_exec(sims, 20 if quick else 80)
             del sims, res
         st = chk.stats
         if not (st["err_yes"] and st["err_no"] and st["err_either"] and st["open"] and st["boxchange"]
                 and st["ops"].get("shift") and st["ops"].get("trans")):
             raise vlib.InfraError("vacuous history set: %s" % st)
 
-        # ---- 4. opposite direction ----------------------------------------------------------------------------------
+        # ---- 4. executable level: csg_map gro -> gro -----------------------------------------------------------------
+        chk.exec_csg_map(bindir)
+
+        # ---- 5. opposite direction ----------------------------------------------------------------------------------
         if quick:
             chk.random_frames(150, 6)
         else:
